@@ -308,6 +308,38 @@ func c21Priority(c *Ctx, q, e, p *ssa.Function) {
 			}
 		}
 	})
+	// … or the scan is a package helper applied to the queue: g is its result, the queue its argument
+	var helperCall *ssa.Call
+	if gApp == nil {
+		allInstrs(q, func(in ssa.Instruction) {
+			call, ok := in.(*ssa.Call)
+			if !ok || helperCall != nil {
+				return
+			}
+			h := call.Call.StaticCallee()
+			if h == nil || h == q || h == e || h == p || len(h.Blocks) == 0 || h.Pkg != q.Pkg || len(h.Params) != 1 {
+				return
+			}
+			allInstrs(h, func(x ssa.Instruction) {
+				if hc, ok := x.(*ssa.Call); ok {
+					if b, ok := hc.Call.Value.(*ssa.Builtin); ok && b.Name() == "append" && strings.HasSuffix(abbr(exprStr(hc.Call.Args[1], o)), "[*].Report][:]") {
+						// the helper returns the list it collected
+						okRet := true
+						allInstrs(h, func(y ssa.Instruction) {
+							if r, isR := y.(*ssa.Return); isR {
+								if len(r.Results) != 1 || !(reachesValue(r.Results[0], hc, 0) || abbr(exprStr(r.Results[0], o)) == abbr(exprStr(hc, o))) {
+									okRet = false
+								}
+							}
+						})
+						if okRet {
+							gApp, helperCall = hc, call
+						}
+					}
+				}
+			})
+		})
+	}
 	if gApp == nil {
 		c.Bad("C21.priority", key+" · ready reports", q.Pos(), "no list of the records' reports is collected")
 		return
@@ -363,6 +395,15 @@ func c21Priority(c *Ctx, q, e, p *ssa.Function) {
 		if ph, ok := r.(*ssa.Phi); ok {
 			gList = ph
 		}
+	}
+	if helperCall != nil {
+		// in Q's terms: the helper was scanning its parameter
+		if pv, isP := stripConv(queue).(*ssa.Parameter); queue != nil && isP && pv.Parent() == gApp.Parent() {
+			queue = helperCall.Call.Args[0]
+		} else {
+			queue = nil
+		}
+		gList = helperCall
 	}
 	stepOK, recur := false, false
 	allInstrs(q, func(in ssa.Instruction) {
@@ -420,6 +461,19 @@ func c21Priority(c *Ctx, q, e, p *ssa.Function) {
 			s := abbr(exprStr(ifi.Cond, o))
 			if strings.HasPrefix(s, "(0 == len(⊕(make([]types.WorkReport, 0); [") || strings.HasPrefix(s, "(0 != len(⊕(make([]types.WorkReport, 0); [") || strings.HasPrefix(s, "(0 < len(⊕(make([]types.WorkReport, 0); [") {
 				emptyEnds = true
+			}
+			// or any comparison of len(g) with 0
+			if bo, isB := ifi.Cond.(*ssa.BinOp); isB && gList != nil {
+				for _, pair := range [][2]ssa.Value{{bo.X, bo.Y}, {bo.Y, bo.X}} {
+					lc, isC := stripConv(pair[0]).(*ssa.Call)
+					k, isK := constInt(pair[1])
+					if !isC || !isK || k != 0 {
+						continue
+					}
+					if b, isBI := lc.Call.Value.(*ssa.Builtin); isBI && b.Name() == "len" && reachesValue(lc.Call.Args[0], gList, 0) {
+						emptyEnds = true
+					}
+				}
 			}
 		})
 		c.Check(okAcc && emptyEnds, "C21.priority", key+" · result", q.Pos(), "each round's g is appended to the output in order; an empty g ends the loop", "the loop does not accumulate g ⌢ … in order or does not stop on an empty g")
